@@ -749,3 +749,1148 @@ Qed.
 
 
 
+(* ------------------------------------------------------------------------------------------ *)
+(** * Part D: inside the agreement zone the code's value-level algorithm IS the specification
+      (schemas without by-name references and without annotations) *)
+
+Lemma inline_deref e s : inline s = true -> deref e s = s.
+Proof. destruct s; cbn [inline]; try discriminate; reflexivity. Qed.
+
+Lemma inline_deref1 e s : inline s = true -> deref1 e s = s.
+Proof. destruct s; cbn [inline]; try discriminate; reflexivity. Qed.
+
+Lemma inline_branch_gen rbs k b : inline (SUnion rbs) = true -> nth_error rbs k = Some b -> inline b = true /\ is_union b = false.
+Proof.
+  cbn [inline]. intros H Hn. rewrite forallb_forall in H. specialize (H b (nth_error_In _ _ Hn)).
+  apply andb_prop in H. destruct H as [H1 H2]. split; [exact H2|]. destruct (is_union b); [discriminate|reflexivity].
+Qed.
+
+(** *** positions instead of schemas: which branch is picked *)
+Lemma find_find_idx {A} (P : A -> bool) l :
+  find P l = match find_idx P l with Some k => nth_error l k | None => None end.
+Proof.
+  induction l as [|x l IH]; cbn [find find_idx]; [reflexivity|].
+  destruct (P x); [reflexivity|]. rewrite IH. destruct (find_idx P l); reflexivity.
+Qed.
+
+Lemma find_idx_some {A} (P : A -> bool) l k : find_idx P l = Some k -> exists x, nth_error l k = Some x /\ P x = true.
+Proof.
+  revert k. induction l as [|x l IH]; intros k H; cbn [find_idx] in H; [discriminate|].
+  destruct (P x) eqn:E.
+  - injection H as <-. exists x. split; [reflexivity|exact E].
+  - destruct (find_idx P l) as [k'|]; [|discriminate]. injection H as <-. apply IH. reflexivity.
+Qed.
+
+Lemma pick_branch_idx we re w rbs :
+  pick_branch we re w rbs = match spec_idx we re w rbs with Some k => nth_error rbs k | None => None end.
+Proof.
+  unfold pick_branch, spec_idx. rewrite !find_find_idx.
+  destruct (find_idx (same_named we re w) rbs) as [k|] eqn:E0.
+  - destruct (find_idx_some _ _ _ E0) as (x & -> & _). reflexivity.
+  - destruct (find_idx (smatch we re false w) rbs) as [k|] eqn:E1.
+    + destruct (find_idx_some _ _ _ E1) as (x & -> & _). reflexivity.
+    + reflexivity.
+Qed.
+
+(* positions of find_branch / reader_branch *)
+Fixpoint find_branch_idx (mt : schema -> rres bool) (bs : list schema) : rres (option nat) :=
+  match bs with
+  | [] => ROk None
+  | b :: bs => let+ x := mt b in if x then ROk (Some O) else let+ k := find_branch_idx mt bs in ROk (option_map S k)
+  end.
+
+Definition reader_branch_idx (mt : nat -> schema -> rres bool) (bs : list schema) : rres (option nat) :=
+  let+ x := find_branch_idx (mt 0%nat) bs in
+  match x with
+  | Some k => ROk (Some k)
+  | None => let+ x := find_branch_idx (mt 1%nat) bs in
+            match x with
+            | Some k => ROk (Some k)
+            | None => find_branch_idx (mt 2%nat) bs
+            end
+  end.
+
+Definition nth_opt (bs : list schema) (k : option nat) : option schema :=
+  match k with Some k => nth_error bs k | None => None end.
+
+Lemma find_branch_nth mt bs :
+  find_branch mt bs = (let+ k := find_branch_idx mt bs in ROk (nth_opt bs k)).
+Proof.
+  induction bs as [|b bs IH]; cbn [find_branch find_branch_idx]; [reflexivity|].
+  destruct (mt b) as [x| | |]; cbn [rbind]; try reflexivity. destruct x; [reflexivity|].
+  rewrite IH. destruct (find_branch_idx mt bs) as [[k|]| | |]; reflexivity.
+Qed.
+
+Lemma find_branch_idx_range mt bs k : find_branch_idx mt bs = ROk (Some k) -> exists b, nth_error bs k = Some b.
+Proof.
+  revert k. induction bs as [|b bs IH]; intros k H; cbn [find_branch_idx] in H; [discriminate|].
+  destruct (mt b) as [x| | |]; cbn [rbind] in H; try discriminate. destruct x.
+  - injection H as <-. exists b. reflexivity.
+  - destruct (find_branch_idx mt bs) as [[k'|]| | |]; cbn [rbind option_map] in H; try discriminate.
+    injection H as <-. apply IH. reflexivity.
+Qed.
+
+Lemma reader_branch_nth mt bs :
+  reader_branch mt bs = (let+ k := reader_branch_idx mt bs in ROk (nth_opt bs k)).
+Proof.
+  unfold reader_branch, reader_branch_idx. rewrite !find_branch_nth.
+  destruct (find_branch_idx (mt 0%nat) bs) as [[k|]| | |] eqn:E0; cbn [rbind nth_opt]; try reflexivity.
+  - destruct (find_branch_idx_range _ _ _ E0) as (b & ->). reflexivity.
+  - destruct (find_branch_idx (mt 1%nat) bs) as [[k|]| | |] eqn:E1; cbn [rbind nth_opt]; try reflexivity.
+    destruct (find_branch_idx_range _ _ _ E1) as (b & ->). reflexivity.
+Qed.
+
+(** *** match_top on two non-union schemas either rejects or hands back the reader schema *)
+Lemma check_match_inv b ok x : check_match b ok = ROk x -> x = ok /\ b = ROk true.
+Proof.
+  unfold check_match. destruct b as [t| | |]; cbn [rbind]; try discriminate. destruct t; [|discriminate].
+  intros H; injection H as <-. split; reflexivity.
+Qed.
+
+Lemma mfuel_S w : mfuel w = S (2 * amdepth w + 7).
+Proof. unfold mfuel. lia. Qed.
+
+Lemma match_schemas_S f we re l w r :
+  match_schemas (S f) we re l w r = match_schemas_body we re (match_types f we re) l w r.
+Proof. reflexivity. Qed.
+Lemma match_types_S f we re l w r :
+  match_types (S f) we re l w r = match_types_body we re (match_schemas f we re) l w r.
+Proof. reflexivity. Qed.
+
+Lemma is_list_union s : is_list s = is_union s.
+Proof. reflexivity. Qed.
+
+Lemma match_top_nonunion we re w r x :
+  inline w = true -> inline r = true -> is_union w = false -> is_union r = false ->
+  match_top we re w r = ROk x -> x = r.
+Proof.
+  intros Hi Hir Hw Hr. unfold match_top. rewrite mfuel_S, match_schemas_S. unfold match_schemas_body.
+  rewrite (inline_deref1 we w Hi), (inline_deref1 re r Hir), is_list_union, Hw.
+  intros H.
+  assert (G : forall (b : rres bool), check_match b r = ROk x -> x = r) by (intros b Hb; apply check_match_inv in Hb; apply Hb).
+  destruct r; try discriminate Hr; try discriminate Hir;
+    destruct (strip w); try (eapply G; exact H);
+    repeat match type of H with context [if ?c then _ else _] => destruct c end;
+    try discriminate H; try (injection H as <-; reflexivity); try (eapply G; exact H).
+Qed.
+
+(** *** a rejected pair is a resolution error of the specification *)
+Lemma resolve_reject we re n w r a :
+  inline w = true -> inline r = true -> is_union w = false -> is_union r = false ->
+  typedn (S n) we w a -> smatch we re true w r = false -> resolve we re w r a = RErrResolution.
+Proof.
+  intros Hw Hr Huw Hur Ht Hm.
+  destruct w; try discriminate Hw; try discriminate Huw;
+    destruct a; cbn [typedn] in Ht; try contradiction;
+    destruct r; try discriminate Hr; try discriminate Hur;
+    cbn [smatch deref Read.resolve strip named_match prim_match] in Hm; try discriminate Hm;
+    cbn [resolve]; cbv zeta; cbn [deref Read.resolve strip reader_side]; try reflexivity;
+    rewrite ?Hm; try reflexivity.
+Qed.
+
+Lemma typed_fits we n w a : inline w = true -> is_union w = false -> typedn (S n) we w a -> fits w a = true.
+Proof.
+  intros Hw Hu Ht. destruct w; try discriminate Hw; try discriminate Hu; destruct a; cbn [typedn] in Ht; try contradiction; reflexivity.
+Qed.
+
+(** *** keys of the record under construction: determined by the two field lists *)
+Definition kadd (ks : list str) (k : str) : list str := if mem k ks then ks else ks ++ [k].
+
+Fixpoint rec_keys (rfs wfs : list field) (ks : list str) : list str :=
+  match wfs with
+  | [] => ks
+  | wf :: wfs => match reader_field rfs (fname wf) with
+                 | Some rf => rec_keys rfs wfs (kadd ks (fname rf))
+                 | None => rec_keys rfs wfs ks
+                 end
+  end.
+
+Definition guard_ok (rfs wfs : list field) : bool :=
+  let ks := rec_keys rfs wfs [] in
+  let tbl := field_table rfs in
+  (len tbl >? len ks) || forallb (fun e => mem (fst e) ks) tbl.
+
+Definition keys_inv (record : list (pyval * pyval)) (ks : list str) : Prop := map fst record = map PStr ks.
+
+Lemma bytes_eqb_sym a : forall b, bytes_eqb a b = bytes_eqb b a.
+Proof. induction a as [|x a IH]; intros [|y b]; cbn [bytes_eqb]; try reflexivity. rewrite Z.eqb_sym, IH. reflexivity. Qed.
+
+Lemma dict_set_keys record : forall ks k v, keys_inv record ks -> keys_inv (dict_set record k v) (kadd ks k).
+Proof.
+  unfold keys_inv, kadd.
+  induction record as [|[k0 v0] record IH]; intros ks k v H; destruct ks as [|s ks]; cbn [map fst] in H; try discriminate.
+  - reflexivity.
+  - injection H as -> H. cbn [dict_set mem existsb]. unfold mem in *.
+    rewrite (bytes_eqb_sym k s). destruct (bytes_eqb s k) eqn:E; cbn [orb map fst].
+    + rewrite H. reflexivity.
+    + specialize (IH ks k v H). destruct (existsb (bytes_eqb k) ks); cbn [map app] in *; rewrite IH; reflexivity.
+Qed.
+
+Lemma keys_get record : forall ks n, keys_inv record ks -> (dict_get record n <> None <-> mem n ks = true).
+Proof.
+  unfold keys_inv, mem.
+  induction record as [|[k0 v0] record IH]; intros ks n H; destruct ks as [|s ks]; cbn [map fst] in H; try discriminate.
+  - cbn. split; [intros []; reflexivity|discriminate].
+  - injection H as -> H. cbn [dict_get existsb]. rewrite (bytes_eqb_sym n s).
+    destruct (bytes_eqb s n); cbn [orb]; [split; [reflexivity|discriminate]|]. apply IH. exact H.
+Qed.
+
+Lemma keys_len record ks : keys_inv record ks -> len record = len ks.
+Proof. unfold keys_inv, len. intros H. rewrite <- (map_length fst record), H, map_length. reflexivity. Qed.
+
+Lemma vfields_keys rec rfs : forall wfs l record ks record',
+  keys_inv record ks -> vfields rec rfs wfs l record = ROk record' -> keys_inv record' (rec_keys rfs wfs ks).
+Proof.
+  induction wfs as [|wf wfs IH]; intros l record ks record' Hk H; destruct l as [|x l]; cbn [vfields rec_keys] in *; try discriminate.
+  - injection H as <-. exact Hk.
+  - destruct (reader_field rfs (fname wf)) as [rf|].
+    + destruct (rec (ftype wf) (Some (ftype rf)) x) as [v| | |]; cbn [rbind] in H; try discriminate.
+      eapply IH; [|exact H]. apply dict_set_keys. exact Hk.
+    + eapply IH; [exact Hk|exact H].
+Qed.
+
+(** *** the code's conversion of a JSON default gives the specification's value whenever the specification has one *)
+Lemma default_code_spec : forall f re s d v, default_value f re s d = ROk v -> code_default f re s d = ROk v.
+Proof.
+  induction f as [|f IH]; intros re s d v H; [discriminate H|].
+  cbn [default_value code_default] in *.
+  destruct (deref re s) as [| | | | | | | |nm al sz|nm al syms dflt|ri|rv|rbs|nm al rfs|nm|lt0 s'] eqn:E.
+  13:{ (* union *)
+    assert (G : forall bs,
+      (fix go (rbs : list schema) : rres pyval :=
+         match rbs with
+         | [] => RErrOther
+         | b :: rbs => if json_fits re b d then default_value f re b d else go rbs
+         end) bs = ROk v ->
+      (fix go (rbs : list schema) : rres pyval :=
+         match rbs with
+         | [] => ROk d
+         | b :: rbs => if json_fits re b d then code_default f re b d else go rbs
+         end) bs = ROk v).
+    { induction bs as [|b bs IHb]; intros G; [discriminate G|].
+      destruct (json_fits re b d); [apply IH; exact G|apply IHb; exact G]. }
+    apply G. destruct d; exact H. }
+  all: destruct d; try discriminate H; try exact H.
+  - (* array *)
+    assert (G : forall l0 l1,
+      (fix go (l : list pyval) : rres (list pyval) :=
+         match l with [] => ROk [] | x :: l => let+ v := default_value f re ri x in let+ t := go l in ROk (v :: t) end) l0 = ROk l1 ->
+      (fix go (l : list pyval) : rres (list pyval) :=
+         match l with [] => ROk [] | x :: l => let+ v := code_default f re ri x in let+ t := go l in ROk (v :: t) end) l0 = ROk l1).
+    { induction l0 as [|x l0 IHl]; intros l1 G; [exact G|].
+      destruct (default_value f re ri x) as [vx| | |] eqn:Ex; cbn [rbind] in G; try discriminate G.
+      rewrite (IH _ _ _ _ Ex). cbn [rbind].
+      match type of G with (let+ t := ?X in _) = _ => destruct X as [t| | |] eqn:Et; cbn [rbind] in G; try discriminate G end.
+      rewrite (IHl t eq_refl). exact G. }
+    match type of H with (let+ l' := ?X in _) = _ => destruct X as [res| | |] eqn:Eres; cbn [rbind] in H; try discriminate H end.
+    rewrite (G l res Eres). exact H.
+  - (* map *)
+    assert (G : forall l0 l1,
+      (fix go (kv : list (pyval * pyval)) : rres (list (pyval * pyval)) :=
+         match kv with [] => ROk [] | (k, x) :: kv => let+ v := default_value f re rv x in let+ t := go kv in ROk ((k, v) :: t) end) l0 = ROk l1 ->
+      (fix go (kv : list (pyval * pyval)) : rres (list (pyval * pyval)) :=
+         match kv with [] => ROk [] | (k, x) :: kv => let+ v := code_default f re rv x in let+ t := go kv in ROk ((k, v) :: t) end) l0 = ROk l1).
+    { induction l0 as [|[k x] l0 IHl]; intros l1 G; [exact G|].
+      destruct (default_value f re rv x) as [vx| | |] eqn:Ex; cbn [rbind] in G; try discriminate G.
+      rewrite (IH _ _ _ _ Ex). cbn [rbind].
+      match type of G with (let+ t := ?X in _) = _ => destruct X as [t| | |] eqn:Et; cbn [rbind] in G; try discriminate G end.
+      rewrite (IHl t eq_refl). exact G. }
+    match type of H with (let+ l' := ?X in _) = _ => destruct X as [res| | |] eqn:Eres; cbn [rbind] in H; try discriminate H end.
+    rewrite (G kv res Eres). exact H.
+  - (* record *)
+    assert (G : forall fs l1,
+      (fix go (rfs : list field) : rres (list (pyval * pyval)) :=
+         match rfs with
+         | [] => ROk []
+         | fd :: rfs =>
+             let+ v := match dict_get kv (fname fd), fdefault fd with
+                       | Some x, _ => default_value f re (ftype fd) x
+                       | None, Some x => default_value f re (ftype fd) x
+                       | None, None => RErrOther end in
+             let+ t := go rfs in ROk ((PStr (fname fd), v) :: t)
+         end) fs = ROk l1 ->
+      (fix go (rfs : list field) : rres (list (pyval * pyval)) :=
+         match rfs with
+         | [] => ROk []
+         | fd :: rfs =>
+             let+ v := match dict_get kv (fname fd), fdefault fd with
+                       | Some x, _ => code_default f re (ftype fd) x
+                       | None, Some x => code_default f re (ftype fd) x
+                       | None, None => RErrOther end in
+             let+ t := go rfs in ROk ((PStr (fname fd), v) :: t)
+         end) fs = ROk l1).
+    { induction fs as [|fd fs IHl]; intros l1 G; [exact G|].
+      destruct (dict_get kv (fname fd)) as [x|].
+      - destruct (default_value f re (ftype fd) x) as [vx| | |] eqn:Ex; cbn [rbind] in G; try discriminate G.
+        rewrite (IH _ _ _ _ Ex). cbn [rbind].
+        match type of G with (let+ t := ?X in _) = _ => destruct X as [t| | |] eqn:Et; cbn [rbind] in G; try discriminate G end.
+        rewrite (IHl t eq_refl). exact G.
+      - destruct (fdefault fd) as [x|]; [|discriminate G].
+        destruct (default_value f re (ftype fd) x) as [vx| | |] eqn:Ex; cbn [rbind] in G; try discriminate G.
+        rewrite (IH _ _ _ _ Ex). cbn [rbind].
+        match type of G with (let+ t := ?X in _) = _ => destruct X as [t| | |] eqn:Et; cbn [rbind] in G; try discriminate G end.
+        rewrite (IHl t eq_refl). exact G. }
+    match type of H with (let+ l' := ?X in _) = _ => destruct X as [res| | |] eqn:Eres; cbn [rbind] in H; try discriminate H end.
+    match goal with |- (let+ kv0 := ?Y in _) = _ => replace Y with (@ROk (list (pyval * pyval)) res) by (symmetry; exact (G rfs res Eres)) end.
+    exact H.
+Qed.
+
+Lemma fill_spec re tbl : forall record, defaults_ok_tbl re tbl = true ->
+  fill_defaults re tbl record = spec_defaults re tbl record.
+Proof.
+  unfold defaults_ok_tbl.
+  induction tbl as [|[n fd] tbl IH]; intros record H; cbn [fill_defaults spec_defaults forallb snd] in *; [reflexivity|].
+  apply andb_prop in H. destruct H as [H1 H2].
+  destruct (dict_get record n); [apply IH; exact H2|].
+  destruct (fdefault fd) as [d|]; [|reflexivity].
+  destruct (default_value DFUEL re (ftype fd) d) as [v| | |] eqn:E; try discriminate H1.
+  rewrite (default_code_spec _ _ _ _ _ E). cbn [rbind]. apply IH. exact H2.
+Qed.
+
+Lemma finish_eq re rfs wfs record :
+  keys_inv record (rec_keys rfs wfs []) -> defaults_ok re rfs = true -> guard_ok rfs wfs = true ->
+  finish_record re rfs record = (let+ r := spec_defaults re (field_table rfs) record in ROk (PDict r)).
+Proof.
+  intros Hk Hd Hg. unfold finish_record. rewrite (fill_spec re _ record Hd).
+  destruct (len (field_table rfs) >? len record) eqn:G; [reflexivity|].
+  unfold guard_ok in Hg. rewrite <- (keys_len _ _ Hk), G in Hg. cbn [orb] in Hg.
+  rewrite spec_defaults_all_present; [reflexivity|].
+  apply Forall_forall. intros e He. apply (keys_get _ _ _ Hk).
+  rewrite forallb_forall in Hg. apply Hg. exact He.
+Qed.
+
+(** *** on inline schemas the code's matching IS the specification's "the schemas match" *)
+Definition named_pair_b (level : nat) (sw sr : schema) : bool :=
+  match named_pair level sw sr with ROk b => b | _ => false end.
+
+Definition nspec_with (ms2 : schema -> schema -> bool) (level : nat) (w r : schema) : bool :=
+  match w, r with
+  | SMap wv, SMap rv => ms2 wv rv
+  | SArray wi, SArray ri => ms2 wi ri
+  | _, _ => if in_named_types (tag_of w) && in_named_types (tag_of r) then named_pair_b level w r
+            else match_type_names (tag_of w) (tag_of r) level
+  end.
+
+Fixpoint mspec (level : nat) (w r : schema) {struct w} : bool :=
+  is_union w || is_union r ||
+  match w, r with
+  | SMap wv, SMap rv => mspec 2 wv rv
+  | SArray wi, SArray ri => mspec 2 wi ri
+  | _, _ => if in_named_types (tag_of w) && in_named_types (tag_of r) then named_pair_b level w r
+            else match_type_names (tag_of w) (tag_of r) level
+  end.
+
+Definition nspec (level : nat) (w r : schema) : bool := nspec_with (mspec 2) level w r.
+
+Lemma mspec_nspec level w r : mspec level w r = is_union w || is_union r || nspec level w r.
+Proof. destruct w; reflexivity. Qed.
+
+Lemma named_pair_ok level sw sr : named_pair level sw sr = ROk (named_pair_b level sw sr).
+Proof. unfold named_pair_b. destruct sw; destruct sr; reflexivity. Qed.
+
+Lemma check_match_ok b r : check_match (ROk b) r = if b then ROk r else RErrResolution.
+Proof. reflexivity. Qed.
+
+Lemma ms_inline we re mt level w r :
+  inline w = true -> inline r = true -> is_union w = false -> is_union r = false ->
+  (forall wi, (w = SArray wi \/ w = SMap wi) -> forall ri, inline ri = true -> mt 2%nat wi ri = ROk (mspec 2 wi ri)) ->
+  match_schemas_body we re mt level w r = if nspec level w r then ROk r else RErrResolution.
+Proof.
+  intros Hw Hr Huw Hur Hsub. unfold match_schemas_body.
+  rewrite (inline_deref1 we w Hw), (inline_deref1 re r Hr), is_list_union, Huw.
+  destruct w; try discriminate Hw; try discriminate Huw;
+    destruct r; try discriminate Hr; try discriminate Hur;
+    cbn [strip tag_of in_named_types andb nspec nspec_with];
+    rewrite ?named_pair_ok, ?check_match_ok; try reflexivity.
+  - (* array / array *) rewrite (Hsub w (or_introl eq_refl) r Hr), check_match_ok. reflexivity.
+  - (* map / map *) rewrite (Hsub w (or_intror eq_refl) r Hr), check_match_ok. reflexivity.
+Qed.
+
+Lemma mt_inline we re ms level w r :
+  inline w = true -> inline r = true ->
+  (is_union w = false -> is_union r = false -> ms level w r = if nspec level w r then ROk r else RErrResolution) ->
+  match_types_body we re ms level w r = ROk (mspec level w r).
+Proof.
+  intros Hw Hr Hms. unfold match_types_body.
+  rewrite (inline_deref1 we w Hw), (inline_deref1 re r Hr), mspec_nspec.
+  change (is_list w) with (is_union w); change (is_list r) with (is_union r).
+  destruct (is_union w) eqn:Huw; [reflexivity|]. destruct (is_union r) eqn:Hur; [reflexivity|]. cbn [orb].
+  destruct (is_dict w || is_dict r) eqn:Hd.
+  - rewrite (Hms eq_refl eq_refl). destruct (nspec level w r); reflexivity.
+  - destruct w; try discriminate Hw; try discriminate Hd; destruct r; try discriminate Hr; try discriminate Hd; reflexivity.
+Qed.
+
+Lemma match_inline we re : forall w, inline w = true ->
+  (forall f level r, (2 * amdepth w + 2 <= f)%nat -> inline r = true ->
+     match_types f we re level w r = ROk (mspec level w r)) /\
+  (forall f level r, (2 * amdepth w + 1 <= f)%nat -> inline r = true -> is_union w = false -> is_union r = false ->
+     match_schemas f we re level w r = if nspec level w r then ROk r else RErrResolution).
+Proof.
+  assert (Step : forall w, inline w = true ->
+     (forall wi, (w = SArray wi \/ w = SMap wi) -> forall f level r, (2 * amdepth wi + 2 <= f)%nat -> inline r = true ->
+                 match_types f we re level wi r = ROk (mspec level wi r)) ->
+     (forall f level r, (2 * amdepth w + 2 <= f)%nat -> inline r = true ->
+        match_types f we re level w r = ROk (mspec level w r)) /\
+     (forall f level r, (2 * amdepth w + 1 <= f)%nat -> inline r = true -> is_union w = false -> is_union r = false ->
+        match_schemas f we re level w r = if nspec level w r then ROk r else RErrResolution)).
+  { intros w Hw Hsub.
+    assert (HS : forall f level r, (2 * amdepth w + 1 <= f)%nat -> inline r = true -> is_union w = false -> is_union r = false ->
+        match_schemas f we re level w r = if nspec level w r then ROk r else RErrResolution).
+    { intros f level r Hf Hr Huw Hur. destruct f as [|f]; [lia|]. rewrite match_schemas_S.
+      apply ms_inline; try assumption. intros wi Hwi ri Hri. apply (Hsub wi Hwi); [|exact Hri].
+      destruct Hwi as [-> | ->]; cbn [amdepth] in Hf; lia. }
+    split; [|exact HS].
+    intros f level r Hf Hr. destruct f as [|f]; [lia|]. rewrite match_types_S.
+    apply mt_inline; try assumption. intros Huw Hur. apply HS; try assumption. lia. }
+  induction w; intros Hi; apply Step; try exact Hi; intros wi [E|E]; try discriminate E.
+  - injection E as <-. apply IHw. exact Hi.
+  - injection E as <-. apply IHw. exact Hi.
+Qed.
+
+(** ... and the specification's [smatch] is the same predicate *)
+Lemma prim_match_names promo w r : is_prim w = true -> is_prim r = true ->
+  prim_match promo w r = match_type_names (tag_of w) (tag_of r) (if promo then 2 else 1).
+Proof. destruct w; try discriminate; destruct r; try discriminate; destruct promo; reflexivity. Qed.
+
+Lemma names_or n n0 al : bytes_eqb n n0 || names_match n n0 al = names_match n n0 al.
+Proof.
+  destruct (bytes_eqb n n0) eqn:E; [|reflexivity].
+  apply bytes_eqb_eq in E. subst. rewrite names_match_refl. reflexivity.
+Qed.
+
+Lemma smatch_mspec we re : forall w r, inline w = true -> inline r = true ->
+  smatch we re true w r = mspec 2 w r /\ smatch we re false w r = mspec 1 w r.
+Proof.
+  induction w; intros r Hw Hr; try discriminate Hw;
+    destruct r; try discriminate Hr;
+    cbn [smatch deref Read.resolve strip named_match prim_match mspec is_union orb tag_of in_named_types andb
+         match_type_names tag_eqb promotable named_pair_b named_pair Nat.leb];
+    try (split; reflexivity).
+  all: try (destruct (IHw r Hw Hr) as [H1 _]; rewrite H1; split; reflexivity).
+  all: rewrite names_or; split; try reflexivity; apply andb_comm.
+Qed.
+
+Lemma mfuel_ge w : (2 * amdepth w + 2 <= pred (mfuel w))%nat /\ (2 * amdepth w + 2 <= mfuel w)%nat.
+Proof. unfold mfuel. lia. Qed.
+
+(** the verdict of match_schemas / match_types on inline schemas is the specification's *)
+Lemma match_top_spec we re w r :
+  inline w = true -> inline r = true -> is_union w = false -> is_union r = false ->
+  match_top we re w r = if smatch we re true w r then ROk r else RErrResolution.
+Proof.
+  intros Hw Hr Huw Hur. unfold match_top.
+  rewrite (proj2 (match_inline we re w Hw) (mfuel w) 2%nat r ltac:(unfold mfuel; lia) Hr Huw Hur).
+  rewrite (proj1 (smatch_mspec we re w r Hw Hr)), mspec_nspec, Huw, Hur. reflexivity.
+Qed.
+
+Lemma match_types_spec we re f w r : (2 * amdepth w + 2 <= f)%nat ->
+  inline w = true -> inline r = true ->
+  match_types f we re 2 w r = ROk (smatch we re true w r).
+Proof.
+  intros Hf Hw Hr. rewrite (proj1 (match_inline we re w Hw) f 2%nat r Hf Hr), (proj1 (smatch_mspec we re w r Hw Hr)). reflexivity.
+Qed.
+
+Lemma find_branch_idx_pure mt (P : schema -> bool) bs :
+  (forall b, In b bs -> mt b = ROk (P b)) -> find_branch_idx mt bs = ROk (find_idx P bs).
+Proof.
+  induction bs as [|b bs IH]; intros H; cbn [find_branch_idx find_idx]; [reflexivity|].
+  rewrite (H b (or_introl eq_refl)). cbn [rbind]. destruct (P b); [reflexivity|].
+  rewrite IH by (intros b' Hb'; apply H; right; exact Hb'). reflexivity.
+Qed.
+
+Lemma find_idx_ext {A} (P Q : A -> bool) l : (forall x, In x l -> P x = Q x) -> find_idx P l = find_idx Q l.
+Proof.
+  induction l as [|x l IH]; intros H; cbn [find_idx]; [reflexivity|].
+  rewrite (H x (or_introl eq_refl)), IH by (intros y Hy; apply H; right; exact Hy). reflexivity.
+Qed.
+
+Lemma find_idx_none {A} (P : A -> bool) l : (forall x, In x l -> P x = false) -> find_idx P l = None.
+Proof.
+  induction l as [|x l IH]; intros H; cbn [find_idx]; [reflexivity|].
+  rewrite (H x (or_introl eq_refl)), IH by (intros y Hy; apply H; right; exact Hy). reflexivity.
+Qed.
+
+(** level 0 of the code = "the very same named type" of the specification; for a writer type that is not
+    named, levels 0 and 1 coincide *)
+Lemma level0_named we re w b : inline w = true -> inline b = true -> is_union w = false -> is_union b = false ->
+  in_named_types (tag_of w) = true -> mspec 0 w b = same_named we re w b.
+Proof.
+  intros Hw Hb Huw Hub Hn.
+  destruct w; try discriminate Hw; try discriminate Huw; try discriminate Hn;
+    destruct b; try discriminate Hb; try discriminate Hub; try reflexivity.
+  all: cbn; rewrite ?orb_false_r; try reflexivity. apply andb_comm.
+Qed.
+
+Lemma level0_plain we re w b : inline w = true -> inline b = true -> is_union w = false -> is_union b = false ->
+  in_named_types (tag_of w) = false -> mspec 0 w b = mspec 1 w b /\ same_named we re w b = false.
+Proof.
+  intros Hw Hb Huw Hub Hn.
+  destruct w; try discriminate Hw; try discriminate Huw; try discriminate Hn;
+    destruct b; try discriminate Hb; try discriminate Hub; split; reflexivity.
+Qed.
+
+Lemma reader_branch_idx_spec we re f w rbs : (2 * amdepth w + 2 <= f)%nat ->
+  inline w = true -> is_union w = false -> inline (SUnion rbs) = true ->
+  reader_branch_idx (fun l => match_types f we re l w) rbs = ROk (spec_idx we re w rbs).
+Proof.
+  intros Hf Hw Huw Hr.
+  assert (Hb : forall b, In b rbs -> inline b = true /\ is_union b = false).
+  { intros b Hin. cbn [inline] in Hr. rewrite forallb_forall in Hr. specialize (Hr b Hin).
+    apply andb_prop in Hr. destruct Hr as [H1 H2]. split; [exact H2|]. destruct (is_union b); [discriminate|reflexivity]. }
+  assert (Hmt : forall l b, In b rbs -> match_types f we re l w b = ROk (mspec l w b)).
+  { intros l b Hin. apply (proj1 (match_inline we re w Hw)); [exact Hf|apply Hb; exact Hin]. }
+  unfold reader_branch_idx, spec_idx.
+  rewrite (find_branch_idx_pure _ (mspec 0 w) rbs (Hmt 0%nat)),
+          (find_branch_idx_pure _ (mspec 1 w) rbs (Hmt 1%nat)),
+          (find_branch_idx_pure _ (mspec 2 w) rbs (Hmt 2%nat)). cbn [rbind].
+  assert (H1 : find_idx (smatch we re false w) rbs = find_idx (mspec 1 w) rbs).
+  { apply find_idx_ext. intros b Hin. apply (smatch_mspec we re w b Hw). apply Hb; exact Hin. }
+  assert (H2 : find_idx (smatch we re true w) rbs = find_idx (mspec 2 w) rbs).
+  { apply find_idx_ext. intros b Hin. apply (smatch_mspec we re w b Hw). apply Hb; exact Hin. }
+  rewrite H1, H2.
+  destruct (in_named_types (tag_of w)) eqn:Hn.
+  - assert (H0 : find_idx (same_named we re w) rbs = find_idx (mspec 0 w) rbs).
+    { apply find_idx_ext. intros b Hin. destruct (Hb b Hin) as [Hbi Hbu]. symmetry. apply level0_named; assumption. }
+    rewrite H0. destruct (find_idx (mspec 0 w) rbs); [reflexivity|].
+    destruct (find_idx (mspec 1 w) rbs); reflexivity.
+  - assert (H0 : find_idx (same_named we re w) rbs = None).
+    { apply find_idx_none. intros b Hin. destruct (Hb b Hin) as [Hbi Hbu]. apply (level0_plain we re w b); assumption. }
+    assert (H01 : find_idx (mspec 0 w) rbs = find_idx (mspec 1 w) rbs).
+    { apply find_idx_ext. intros b Hin. destruct (Hb b Hin) as [Hbi Hbu]. apply (level0_plain we re w b); assumption. }
+    rewrite H0, H01. destruct (find_idx (mspec 1 w) rbs); reflexivity.
+Qed.
+
+(** the branch the specification picks does match *)
+Lemma smatch_false_true we re w b : inline w = true -> inline b = true ->
+  smatch we re false w b = true -> smatch we re true w b = true.
+Proof.
+  intros Hw Hb. destruct w; try discriminate Hw; destruct b; try discriminate Hb;
+    cbn [smatch deref Read.resolve strip prim_match named_match]; try discriminate; trivial.
+Qed.
+
+Lemma same_named_smatch we re w b : inline w = true -> inline b = true -> is_union w = false ->
+  same_named we re w b = true -> smatch we re true w b = true.
+Proof.
+  intros Hw Hb Huw. destruct w; try discriminate Hw; try discriminate Huw; destruct b; try discriminate Hb;
+    cbn [same_named smatch deref Read.resolve strip prim_match named_match]; try discriminate; trivial; intros H.
+  - apply andb_prop in H. destruct H as [H1 H2]. apply bytes_eqb_eq in H1. subst. rewrite names_match_refl, H2. reflexivity.
+  - apply bytes_eqb_eq in H. subst. apply names_match_refl.
+  - apply bytes_eqb_eq in H. subst. apply names_match_refl.
+Qed.
+
+Lemma spec_idx_smatch we re w rbs k b : inline w = true -> is_union w = false -> inline (SUnion rbs) = true ->
+  spec_idx we re w rbs = Some k -> nth_error rbs k = Some b -> smatch we re true w b = true.
+Proof.
+  intros Hw Huw Hr Hk Hn. destruct (inline_branch_gen rbs k b Hr Hn) as [Hbi Hbu].
+  unfold spec_idx in Hk.
+  destruct (find_idx (same_named we re w) rbs) as [k0|] eqn:E0.
+  - injection Hk as <-. destruct (find_idx_some _ _ _ E0) as (x & Hx & Px). rewrite Hn in Hx. injection Hx as <-.
+    apply same_named_smatch; assumption.
+  - destruct (find_idx (smatch we re false w) rbs) as [k1|] eqn:E1.
+    + injection Hk as <-. destruct (find_idx_some _ _ _ E1) as (x & Hx & Px). rewrite Hn in Hx. injection Hx as <-.
+      apply smatch_false_true; assumption.
+    + destruct (find_idx_some _ _ _ Hk) as (x & Hx & Px). rewrite Hn in Hx. injection Hx as <-. exact Px.
+Qed.
+
+(** the reader field found for a name is one of the reader's fields *)
+Lemma tbl_set_vals {A} (P : A -> Prop) (d : list (str * A)) k v :
+  Forall (fun e => P (snd e)) d -> P v -> Forall (fun e => P (snd e)) (tbl_set d k v).
+Proof.
+  intros Hd Hv. induction Hd as [|[k' v'] d Hx Hd IH]; cbn [tbl_set]; [constructor; [exact Hv|constructor]|].
+  destruct (bytes_eqb k' k); constructor; try assumption.
+Qed.
+
+Lemma tbl_get_vals {A} (P : A -> Prop) (d : list (str * A)) k v :
+  Forall (fun e => P (snd e)) d -> tbl_get d k = Some v -> P v.
+Proof.
+  induction 1 as [|[k' v'] d Hx Hd IH]; cbn [tbl_get]; [discriminate|].
+  destruct (bytes_eqb k' k); [intros H; injection H as <-; exact Hx|exact IH].
+Qed.
+
+Lemma reader_field_in rfs k rf : reader_field rfs k = Some rf -> In rf rfs.
+Proof.
+  unfold reader_field.
+  assert (H1 : Forall (fun e : str * field => In (snd e) rfs) (field_table rfs)).
+  { unfold field_table.
+    assert (G : forall l acc, incl l rfs -> Forall (fun e : str * field => In (snd e) rfs) acc ->
+                Forall (fun e : str * field => In (snd e) rfs) (fold_left (fun d f => tbl_set d (fname f) f) l acc)).
+    { induction l as [|f l IH]; intros acc Hl Ha; cbn [fold_left]; [exact Ha|].
+      apply IH; [intros x Hx; apply Hl; right; exact Hx|]. apply (tbl_set_vals (fun x : field => In x rfs)); [exact Ha|apply Hl; left; reflexivity]. }
+    apply G; [apply incl_refl|constructor]. }
+  assert (H2 : Forall (fun e : str * field => In (snd e) rfs) (alias_table rfs)).
+  { unfold alias_table.
+    assert (G : forall l acc, incl l rfs -> Forall (fun e : str * field => In (snd e) rfs) acc ->
+                Forall (fun e : str * field => In (snd e) rfs)
+                  (fold_left (fun d f => fold_left (fun d a => tbl_set d a f) (faliases f) d) l acc)).
+    { induction l as [|f l IH]; intros acc Hl Ha; cbn [fold_left]; [exact Ha|].
+      apply IH; [intros x Hx; apply Hl; right; exact Hx|].
+      assert (Hf : In f rfs) by (apply Hl; left; reflexivity).
+      generalize (faliases f). intros als. revert acc Ha. induction als as [|a als IHa]; intros acc Ha; cbn [fold_left]; [exact Ha|].
+      apply IHa. apply (tbl_set_vals (fun x : field => In x rfs)); assumption. }
+    apply G; [apply incl_refl|constructor]. }
+  destruct (tbl_get (field_table rfs) k) as [f|] eqn:E.
+  - intros H; injection H as <-. exact (tbl_get_vals (fun x : field => In x rfs) _ _ _ H1 E).
+  - intros H. exact (tbl_get_vals (fun x : field => In x rfs) _ _ _ H2 H).
+Qed.
+
+(** *** the `len(readers_field_dict) > len(record)` guard of read_record never hides a missing field *)
+Lemma mem_In k ks : mem k ks = true <-> In k ks.
+Proof.
+  unfold mem. rewrite existsb_exists. split.
+  - intros (x & Hx & E). apply bytes_eqb_eq in E. subst. exact Hx.
+  - intros H. exists k. split; [exact H|apply bytes_eqb_refl].
+Qed.
+
+Lemma nodup_snoc {A} (l : list A) x : NoDup l -> ~ In x l -> NoDup (l ++ [x]).
+Proof.
+  induction 1 as [|y l Hy Hl IH]; intros Hx; cbn [app]; [constructor; [intros []|constructor]|].
+  constructor.
+  - intros H. apply in_app_or in H. destruct H as [H|[<-|[]]]; [exact (Hy H)|apply Hx; left; reflexivity].
+  - apply IH. intros H. apply Hx. right. exact H.
+Qed.
+
+Lemma kadd_nodup ks k : NoDup ks -> NoDup (kadd ks k).
+Proof.
+  intros H. unfold kadd. destruct (mem k ks) eqn:E; [exact H|].
+  apply nodup_snoc; [exact H|]. intros Hin. apply mem_In in Hin. congruence.
+Qed.
+
+Lemma kadd_incl ks k (P : str -> Prop) : (forall x, In x ks -> P x) -> P k -> forall x, In x (kadd ks k) -> P x.
+Proof.
+  intros H Hk x Hx. unfold kadd in Hx. destruct (mem k ks); [apply H; exact Hx|].
+  apply in_app_or in Hx. destruct Hx as [Hx|[<-|[]]]; [apply H; exact Hx|exact Hk].
+Qed.
+
+Lemma tbl_set_has {A} (d : list (str * A)) k v : In k (map fst (tbl_set d k v)) /\
+  (forall n, In n (map fst d) -> In n (map fst (tbl_set d k v))).
+Proof.
+  induction d as [|[k' v'] d [IH1 IH2]]; cbn [tbl_set map fst In].
+  - split; [left; reflexivity|intros n []].
+  - destruct (bytes_eqb k' k) eqn:E; cbn [map fst In].
+    + apply bytes_eqb_eq in E. subst. split; [left; reflexivity|intros n H; exact H].
+    + split; [right; exact IH1|intros n [H|H]; [left; exact H|right; apply IH2; exact H]].
+Qed.
+
+Lemma field_table_has rfs f : In f rfs -> In (fname f) (map fst (field_table rfs)).
+Proof.
+  unfold field_table.
+  assert (G : forall l acc, (In f l \/ In (fname f) (map fst acc)) ->
+              In (fname f) (map fst (fold_left (fun d f => tbl_set d (fname f) f) l acc))).
+  { induction l as [|g l IH]; intros acc H; cbn [fold_left].
+    - destruct H as [[]|H]. exact H.
+    - apply IH. destruct H as [[<-|H]|H].
+      + right. exact (proj1 (tbl_set_has acc (fname g) g)).
+      + left. exact H.
+      + right. exact (proj2 (tbl_set_has acc (fname g) g) _ H). }
+  intros H. apply G. left. exact H.
+Qed.
+
+Lemma rec_keys_props rfs : forall wfs ks, NoDup ks -> (forall x, In x ks -> In x (map fst (field_table rfs))) ->
+  NoDup (rec_keys rfs wfs ks) /\ (forall x, In x (rec_keys rfs wfs ks) -> In x (map fst (field_table rfs))).
+Proof.
+  induction wfs as [|wf wfs IH]; intros ks Hn Hi; cbn [rec_keys]; [split; assumption|].
+  destruct (reader_field rfs (fname wf)) as [rf|] eqn:E; [|apply IH; assumption].
+  apply IH; [apply kadd_nodup; exact Hn|].
+  apply kadd_incl; [exact Hi|]. apply field_table_has. eapply reader_field_in. exact E.
+Qed.
+
+Lemma guard_always rfs wfs : guard_ok rfs wfs = true.
+Proof.
+  unfold guard_ok.
+  destruct (len (field_table rfs) >? len (rec_keys rfs wfs [])) eqn:G; [reflexivity|]. cbn [orb].
+  destruct (rec_keys_props rfs wfs [] (NoDup_nil _) (fun x (H : In x []) => match H with end)) as [Hn Hi].
+  assert (Hincl : incl (map fst (field_table rfs)) (rec_keys rfs wfs [])).
+  { apply NoDup_length_incl; [exact Hn| |exact Hi]. rewrite map_length. unfold len in G. lia. }
+  apply forallb_forall. intros e He. apply mem_In. apply Hincl. apply in_map. exact He.
+Qed.
+
+(** *** one step of [rval] *)
+Definition rbody (f : nat) (we re : env) (o : ropts) (w : schema) (R' : option schema) (a : aval) : rres pyval :=
+    let+ v :=
+      match strip w, a with
+      | SRef n, _ =>
+          match lookup we n with
+          | None => RErrOther
+          | Some w' => rval f we re o w' R' a
+          end
+      | SArray wi, AArray l =>
+          let item a := match truthy R' with
+                        | Some r => let+ ri := r_items r in rval f we re o wi (Some ri) a
+                        | None => rval f we re o wi None a
+                        end in
+          let+ l := vitems item l in ROk (PList l)
+      | SMap wv, AMap l =>
+          let item a := match truthy R' with
+                        | Some r => let+ rv := r_values r in rval f we re o wv (Some rv) a
+                        | None => rval f we re o wv None a
+                        end in
+          let+ l := vmap_items item l in ROk (PDict (dict_of_items l))
+      | SUnion wbs, AUnion i x =>
+          match nthZ wbs i with
+          | None => RErrOther
+          | Some wb =>
+              let+ (rb, idx_reader) := union_reader we re wb R' in
+              let+ v := rval f we re o wb rb x in
+              wrap_union_r o we re wbs wb idx_reader v
+          end
+      | SRecord _ _ wfs, ARecord l =>
+          match R' with
+          | None => let+ record := vfields_plain (rval f we re o) wfs l [] in ROk (PDict record)
+          | Some r =>
+              let+ rfs := r_fields r in
+              let+ record := vfields (rval f we re o) rfs wfs l [] in
+              finish_record re rfs record
+          end
+      | SEnum _ _ syms _, AEnum i =>
+          match nthZ syms i with
+          | None => RErrOther
+          | Some sym => enum_symbol R' sym
+          end
+      | SAnnot _ _, _ => RErrOther
+      | (SArray _ | SMap _ | SUnion _ | SRecord _ _ _ | SEnum _ _ _ _), _ => RErrOther
+      | s, a => leaf_py s a
+      end in
+    match strip w with
+    | SRef _ => ROk v
+    | _ => promote_with (tag_of w) R' v
+    end.
+
+Lemma rval_S f we re o w R a :
+  rval (S f) we re o w R a = (let+ R' := matched we re w R in rbody f we re o w R' a).
+Proof. reflexivity. Qed.
+
+(** the part of [agree] about what follows once a non-union writer schema meets the reader schema [b] *)
+Definition sub_ok (we re : env) (w b : schema) : bool :=
+  match w, b with
+  | SEnum _ _ _ _, SEnum _ _ _ (Some []) => false
+  | SArray wi, SArray ri => agree we re wi ri
+  | SMap wv, SMap rv => agree we re wv rv
+  | SRecord _ _ wfs, SRecord _ _ rfs =>
+      forallb (fun wf => match reader_field rfs (fname wf) with
+                         | Some rf => agree we re (ftype wf) (ftype rf)
+                         | None => true end) wfs
+      && defaults_ok re rfs
+  | _, _ => true
+  end.
+
+Lemma agree_nonunion we re w r : is_union w = false ->
+  agree we re w r =
+  truthy_ok r &&
+  match r with
+  | SUnion rbs => match spec_idx we re w rbs with
+                  | Some k => match nth_error rbs k with Some b => sub_ok we re w b | None => true end
+                  | None => true
+                  end
+  | _ => if smatch we re true w r then sub_ok we re w r else true
+  end.
+Proof. intros H. destruct w; try discriminate H; reflexivity. Qed.
+
+Lemma agree_union we re wbs r :
+  agree we re (SUnion wbs) r =
+  truthy_ok r &&
+  forallb (fun wb =>
+        match r with
+        | SUnion rbs => match spec_idx we re wb rbs with
+                        | Some k => match nth_error rbs k with Some b => agree we re wb b | None => true end
+                        | None => true
+                        end
+        | _ => if smatch we re true wb r then agree we re wb r else true
+        end) wbs.
+Proof. reflexivity. Qed.
+
+Lemma wrap_union_r0 we re bs b rb v : wrap_union_r ropts0 we re bs b rb v = ROk v.
+Proof. reflexivity. Qed.
+
+Section Body.
+  Variable n : nat.
+  Hypothesis IH : forall we w a, typedn n we w a -> forall re r f, (n <= f)%nat ->
+    inline w = true -> inline r = true -> agree we re w r = true ->
+    rval f we re ropts0 w (Some r) a = resolve we re w r a.
+
+  Lemma items_agree we re wi ri f l : (n <= f)%nat -> inline wi = true -> inline ri = true -> agree we re wi ri = true ->
+    Forall (typedn n we wi) l ->
+    vitems (fun a => rval f we re ropts0 wi (Some ri) a) l = res_items (resolve we re) wi ri l.
+  Proof.
+    intros Hf Hw Hr Ha. induction 1 as [|x l Hx _ IHl]; cbn [vitems res_items]; [reflexivity|].
+    rewrite (IH we wi x Hx re ri f Hf Hw Hr Ha), IHl. reflexivity.
+  Qed.
+
+  Lemma entries_agree we re wv rv f (l : list (bytes * aval)) : (n <= f)%nat -> inline wv = true -> inline rv = true ->
+    agree we re wv rv = true ->
+    Forall (fun kv => key_ok (fst kv) /\ typedn n we wv (snd kv)) l ->
+    vmap_items (fun a => rval f we re ropts0 wv (Some rv) a) l = res_entries (resolve we re) wv rv l.
+  Proof.
+    intros Hf Hw Hr Ha. induction 1 as [|[k x] l [_ Hx] _ IHl]; cbn [vmap_items res_entries]; [reflexivity|].
+    cbn [snd] in Hx. rewrite (IH we wv x Hx re rv f Hf Hw Hr Ha), IHl. reflexivity.
+  Qed.
+
+  Lemma fields_agree we re rfs f : (n <= f)%nat -> forallb (fun rf : field => inline (ftype rf)) rfs = true ->
+    forall wfs l acc, Forall2 (fun fd a => typedn n we (ftype fd) a) wfs l ->
+    forallb (fun wf : field => inline (ftype wf)) wfs = true ->
+    forallb (fun wf => match reader_field rfs (fname wf) with
+                       | Some rf => agree we re (ftype wf) (ftype rf)
+                       | None => true end) wfs = true ->
+    vfields (rval f we re ropts0) rfs wfs l acc = res_fields (resolve we re) rfs wfs l acc.
+  Proof.
+    intros Hf Hrfs wfs l acc H. revert acc. induction H as [|wf x wfs l Hx _ IHl]; intros acc Hi Ha; cbn [vfields res_fields]; [reflexivity|].
+    cbn [forallb] in Hi, Ha. apply andb_prop in Hi. destruct Hi as [Hi1 Hi2]. apply andb_prop in Ha. destruct Ha as [Ha1 Ha2].
+    destruct (reader_field rfs (fname wf)) as [rf|] eqn:E.
+    - assert (Hrf : inline (ftype rf) = true).
+      { rewrite forallb_forall in Hrfs. apply Hrfs. eapply reader_field_in. exact E. }
+      rewrite (IH we (ftype wf) x Hx re (ftype rf) f Hf Hi1 Hrf Ha1).
+      destruct (resolve we re (ftype wf) (ftype rf) x); cbn [rbind]; try reflexivity. apply IHl; assumption.
+    - apply IHl; assumption.
+  Qed.
+
+  Lemma body_agree we re w b a f : typedn (S n) we w a -> (n <= f)%nat ->
+    inline w = true -> inline b = true -> is_union w = false -> is_union b = false ->
+    smatch we re true w b = true -> sub_ok we re w b = true ->
+    rbody f we re ropts0 w (Some b) a = resolve we re w b a.
+  Proof.
+    intros Ht Hf Hw Hb Huw Hub Hm Hs.
+    destruct w; try discriminate Hw; try discriminate Huw; destruct a; cbn [typedn] in Ht; try contradiction;
+      destruct b; try discriminate Hb; try discriminate Hub;
+      cbn [smatch deref Read.resolve strip named_match prim_match] in Hm; try discriminate Hm;
+      cbn [sub_ok] in Hs; try discriminate Hs; try reflexivity.
+    - (* fixed *)
+      cbn [resolve]; cbv zeta; cbn [deref Read.resolve strip reader_side]. rewrite Hm. reflexivity.
+    - (* enum *)
+      cbn [resolve]; cbv zeta; cbn [deref Read.resolve strip reader_side]. rewrite Hm.
+      unfold rbody. cbn [strip]. destruct (nthZ syms i) as [sym|]; [|reflexivity].
+      unfold enum_symbol. cbn [truthy is_dict is_list is_str negb andb strip].
+      destruct (mem sym syms0); [reflexivity|]. destruct dflt0 as [[|c d]|]; try discriminate Hs; reflexivity.
+    - (* array *)
+      destruct Ht as [_ Hl]. cbn [inline] in Hw, Hb.
+      cbn [resolve]; cbv zeta; cbn [deref Read.resolve strip reader_side]. rewrite Hm.
+      unfold rbody. cbn [strip truthy r_items is_dict is_list is_str negb andb rbind].
+      rewrite (items_agree we re w b f l Hf Hw Hb Hs Hl).
+      destruct (res_items (resolve we re) w b l); reflexivity.
+    - (* map *)
+      destruct Ht as [_ Hl]. cbn [inline] in Hw, Hb.
+      cbn [resolve]; cbv zeta; cbn [deref Read.resolve strip reader_side]. rewrite Hm.
+      unfold rbody. cbn [strip truthy r_values is_dict is_list is_str negb andb rbind].
+      rewrite (entries_agree we re w b f l Hf Hw Hb Hs Hl).
+      destruct (res_entries (resolve we re) w b l); reflexivity.
+    - (* record *)
+      cbn [inline] in Hw, Hb. apply andb_prop in Hs. destruct Hs as [Hs Hd]. pose proof (guard_always fs0 fs) as Hg.
+      cbn [resolve]; cbv zeta; cbn [deref Read.resolve strip reader_side]. rewrite Hm.
+      unfold rbody. cbn [strip r_fields is_dict is_list is_str negb andb rbind].
+      rewrite (fields_agree we re fs0 f Hf Hb fs l [] Ht Hw Hs).
+      destruct (res_fields (resolve we re) fs0 fs l []) as [record| | |] eqn:E; cbn [rbind]; try reflexivity.
+      assert (Hk : keys_inv record (rec_keys fs0 fs [])).
+      { rewrite <- (fields_agree we re fs0 f Hf Hb fs l [] Ht Hw Hs) in E. eapply vfields_keys; [|exact E]. reflexivity. }
+      rewrite (finish_eq re fs0 fs record Hk Hd Hg).
+      destruct (spec_defaults re (field_table fs0) record); reflexivity.
+  Qed.
+End Body.
+
+Lemma nthZ_In {A} (l : list A) : forall i x, nthZ l i = Some x -> In x l.
+Proof.
+  induction l as [|a l IH]; intros i x H; cbn [nthZ] in H; [discriminate|].
+  destruct (i =? 0); [injection H as <-; left; reflexivity|]. destruct (i <? 0); [discriminate|]. right. eapply IH. exact H.
+Qed.
+
+Lemma truthy_some r : truthy_ok r = true -> truthy (Some r) = Some r.
+Proof. destruct r; try reflexivity. destruct bs; [discriminate|reflexivity]. Qed.
+
+Lemma reader_side_union we re w rbs k b :
+  spec_idx we re w rbs = Some k -> nth_error rbs k = Some b -> inline b = true -> is_union b = false ->
+  reader_side we re w (SUnion rbs) = Some b.
+Proof.
+  intros Hk Hn Hi Hu. unfold reader_side. cbn [deref Read.resolve strip]. rewrite pick_branch_idx, Hk, Hn.
+  rewrite (inline_deref re b Hi). destruct b; try discriminate Hu; reflexivity.
+Qed.
+
+Lemma reader_side_plain we re w b : inline b = true -> is_union b = false -> reader_side we re w b = Some b.
+Proof. intros Hi Hu. unfold reader_side. rewrite (inline_deref re b Hi). destruct b; try discriminate Hu; reflexivity. Qed.
+
+Definition inline_branch := inline_branch_gen.
+
+Lemma spec_idx_range we re w rbs k : spec_idx we re w rbs = Some k -> exists b, nth_error rbs k = Some b.
+Proof.
+  unfold spec_idx. intros H.
+  destruct (find_idx (same_named we re w) rbs) as [k0|] eqn:E0.
+  - injection H as <-. destruct (find_idx_some _ _ _ E0) as (x & Hx & _). exists x. exact Hx.
+  - destruct (find_idx (smatch we re false w) rbs) as [k1|] eqn:E1.
+    + injection H as <-. destruct (find_idx_some _ _ _ E1) as (x & Hx & _). exists x. exact Hx.
+    + destruct (find_idx_some _ _ _ H) as (x & Hx & _). exists x. exact Hx.
+Qed.
+
+Lemma union_reader_plain we re wb r : is_union r = false ->
+  union_reader we re wb (Some r) = (let+ x := match_types_top we re 2 wb r in if x then ROk (Some r, None) else RErrResolution).
+Proof. intros H. destruct r; try discriminate H; reflexivity. Qed.
+
+Lemma union_reader_union we re wb rbs : truthy_ok (SUnion rbs) = true ->
+  union_reader we re wb (Some (SUnion rbs)) =
+  (let+ x := reader_branch (fun l => match_types_top we re l wb) rbs in
+   match x with Some b => ROk (Some b, Some b) | None => RErrResolution end).
+Proof. intros H. destruct rbs; [discriminate H|reflexivity]. Qed.
+
+Lemma match_top_union_writer we re wbs r : match_top we re (SUnion wbs) r = ROk r.
+Proof. unfold match_top. rewrite mfuel_S, match_schemas_S. reflexivity. Qed.
+
+Lemma match_top_union_reader we re w rbs : inline w = true -> is_union w = false ->
+  match_top we re w (SUnion rbs) =
+  (let+ x := reader_branch (fun l => match_types (pred (mfuel w)) we re l w) rbs in
+   match x with Some b => ROk b | None => RErrResolution end).
+Proof.
+  intros Hi Hu. unfold match_top. rewrite mfuel_S, match_schemas_S. cbn [pred]. unfold match_schemas_body.
+  rewrite (inline_deref1 we w Hi), is_list_union, Hu. reflexivity.
+Qed.
+
+Lemma reader_branch_idx_top we re wb rbs : inline wb = true -> is_union wb = false -> inline (SUnion rbs) = true ->
+  reader_branch_idx (fun l => match_types_top we re l wb) rbs = ROk (spec_idx we re wb rbs).
+Proof. intros H1 H2 H3. exact (reader_branch_idx_spec we re (mfuel wb) wb rbs (proj2 (mfuel_ge wb)) H1 H2 H3). Qed.
+
+Lemma match_types_top_spec we re wb r : inline wb = true -> inline r = true ->
+  match_types_top we re 2 wb r = ROk (smatch we re true wb r).
+Proof. intros H1 H2. exact (match_types_spec we re (mfuel wb) wb r (proj2 (mfuel_ge wb)) H1 H2). Qed.
+
+Theorem rval_resolve : forall n we w a, typedn n we w a -> forall re r f, (n <= f)%nat ->
+  inline w = true -> inline r = true -> agree we re w r = true ->
+  rval f we re ropts0 w (Some r) a = resolve we re w r a.
+Proof.
+  induction n as [|n IH]; intros we w a Ht re r f Hf Hw Hr Ha; [destruct Ht|].
+  destruct f as [|f]; [lia|]. assert (Hf' : (n <= f)%nat) by lia.
+  rewrite rval_S.
+  destruct (is_union w) eqn:Hu.
+  - (* the writer schema is a union *)
+    destruct w as [| | | | | | | | | | | |wbs| | |]; try discriminate Hu.
+    destruct a; cbn [typedn] in Ht; try contradiction. destruct Ht as (_ & wb & Hn & Hx).
+    rewrite agree_union in Ha. apply andb_prop in Ha. destruct Ha as [Htr Ha].
+    unfold matched. rewrite (truthy_some r Htr), match_top_union_writer. cbn [rbind]. rewrite (inline_deref1 re r Hr).
+    unfold rbody. cbn [strip]. rewrite Hn.
+    assert (Hin : In wb wbs) by (eapply nthZ_In; exact Hn).
+    cbn [inline] in Hw. rewrite forallb_forall in Hw. specialize (Hw wb Hin). apply andb_prop in Hw. destruct Hw as [Hwu Hwi].
+    assert (Hwu' : is_union wb = false) by (destruct (is_union wb); [discriminate|reflexivity]).
+    rewrite forallb_forall in Ha. specialize (Ha wb Hin).
+    destruct n as [|m]; [destruct Hx|].
+    assert (Hres : resolve we re (SUnion wbs) r (AUnion i a) = resolve we re wb r a).
+    { cbn [resolve]; cbv zeta. cbn [deref Read.resolve strip]. rewrite Hn. reflexivity. }
+    rewrite Hres.
+    destruct (is_union r) eqn:Hur.
+    + (* reader union *)
+      destruct r as [| | | | | | | | | | | |rbs| | |]; try discriminate Hur.
+      rewrite (union_reader_union we re wb rbs Htr), reader_branch_nth.
+      rewrite (reader_branch_idx_top we re wb rbs Hwi Hwu' Hr). cbn [rbind].
+      destruct (spec_idx we re wb rbs) as [k|] eqn:Hk; cbn [nth_opt].
+      * destruct (spec_idx_range _ _ _ _ _ Hk) as (b & Hnth). rewrite Hnth in Ha |- *.
+        destruct (inline_branch rbs k b Hr Hnth) as [Hbi Hbu]. cbn [rbind].
+        rewrite (IH we wb a Hx re b f Hf' Hwi Hbi Ha).
+        rewrite (resolve_reader_side we re wb (SUnion rbs) b a).
+        -- destruct (resolve we re wb b a); reflexivity.
+        -- rewrite (inline_deref we wb Hwi). exact Hwu'.
+        -- rewrite (inline_deref we wb Hwi), (reader_side_union we re wb rbs k b Hk Hnth Hbi Hbu), (reader_side_plain we re wb b Hbi Hbu). reflexivity.
+      * symmetry. apply (error_no_branch we re wb (SUnion rbs) a rbs).
+        -- rewrite (inline_deref we wb Hwi). exact Hwu'.
+        -- rewrite (inline_deref we wb Hwi). eapply typed_fits; eassumption.
+        -- reflexivity.
+        -- rewrite (inline_deref we wb Hwi), pick_branch_idx, Hk. reflexivity.
+    + (* reader not a union *)
+      assert (Ha2 : (if smatch we re true wb r then agree we re wb r else true) = true)
+        by (destruct r; try discriminate Hur; exact Ha).
+      clear Ha. rename Ha2 into Ha.
+      rewrite (union_reader_plain we re wb r Hur), (match_types_top_spec we re wb r Hwi Hr). cbn [rbind].
+      destruct (smatch we re true wb r) eqn:Hm.
+      * cbn [rbind]. rewrite (IH we wb a Hx re r f Hf' Hwi Hr Ha). destruct (resolve we re wb r a); reflexivity.
+      * cbn [rbind]. symmetry. eapply resolve_reject; eassumption.
+  - (* the writer schema is not a union *)
+    rewrite (agree_nonunion we re w r Hu) in Ha. apply andb_prop in Ha. destruct Ha as [Htr Ha].
+    unfold matched. rewrite (truthy_some r Htr).
+    destruct (is_union r) eqn:Hur.
+    + destruct r as [| | | | | | | | | | | |rbs| | |]; try discriminate Hur.
+      rewrite (match_top_union_reader we re w rbs Hw Hu), reader_branch_nth.
+      rewrite (reader_branch_idx_spec we re (pred (mfuel w)) w rbs (proj1 (mfuel_ge w)) Hw Hu Hr). cbn [rbind].
+      destruct (spec_idx we re w rbs) as [k|] eqn:Hk; cbn [nth_opt].
+      * destruct (spec_idx_range _ _ _ _ _ Hk) as (b & Hnth). rewrite Hnth in Ha |- *.
+        destruct (inline_branch rbs k b Hr Hnth) as [Hbi Hbu]. cbn [rbind]. rewrite (inline_deref1 re b Hbi).
+        pose proof (spec_idx_smatch we re w rbs k b Hw Hu Hr Hk Hnth) as Hm.
+        rewrite (body_agree n IH we re w b a f Ht Hf' Hw Hbi Hu Hbu Hm Ha).
+        symmetry. apply resolve_reader_side.
+        -- rewrite (inline_deref we w Hw). exact Hu.
+        -- rewrite (inline_deref we w Hw), (reader_side_union we re w rbs k b Hk Hnth Hbi Hbu), (reader_side_plain we re w b Hbi Hbu). reflexivity.
+      * symmetry. apply (error_no_branch we re w (SUnion rbs) a rbs).
+        -- rewrite (inline_deref we w Hw). exact Hu.
+        -- rewrite (inline_deref we w Hw). eapply typed_fits; eassumption.
+        -- reflexivity.
+        -- rewrite (inline_deref we w Hw), pick_branch_idx, Hk. reflexivity.
+    + assert (Ha' : (if smatch we re true w r then sub_ok we re w r else true) = true)
+        by (destruct r; try discriminate Hur; exact Ha).
+      clear Ha. rewrite (match_top_spec we re w r Hw Hr Hu Hur).
+      destruct (smatch we re true w r) eqn:Hm; cbn [rbind].
+      * rewrite (inline_deref1 re r Hr). apply (body_agree n IH we re w r a f Ht Hf' Hw Hr Hu Hur Hm Ha').
+      * symmetry. eapply resolve_reject; eassumption.
+Qed.
+
+(** reading with a reader schema = decode, then the SPECIFICATION, inside the agreement zone *)
+Theorem rdec_resolve_zone : forall n we w l, typedl n we w l ->
+  forall re r f x, (n <= f)%nat -> typedn n we w (erase l) ->
+  inline w = true -> inline r = true -> agree we re w r = true ->
+  rdec f we re ropts0 w (Some r) (wire_l l ++ x) = lift x (resolve we re w r (erase l)).
+Proof.
+  intros n we w l Hl re r f x Hf Ht Hw Hr Ha.
+  rewrite (rdec_rval n we w l Hl f Hf re ropts0 (Some r) x).
+  rewrite (rval_resolve n we w (erase l) Ht re r f Hf Hw Hr Ha). reflexivity.
+Qed.
+
+Theorem rdec_resolve_zone_wire : forall n we w a, typedn n we w a ->
+  forall re r f x, (n <= f)%nat -> inline w = true -> inline r = true -> agree we re w r = true ->
+  rdec f we re ropts0 w (Some r) (wire a ++ x) = lift x (resolve we re w r a).
+Proof.
+  intros n we w a Ht re r f x Hf Hw Hr Ha.
+  rewrite (rdec_rval_wire n we w a Ht f Hf re ropts0 (Some r) x).
+  rewrite (rval_resolve n we w a Ht re r f Hf Hw Hr Ha). reflexivity.
+Qed.
+
+(** reader == writer through the code, inside the zone: what reading without a reader schema returns *)
+Theorem rdec_identity_zone : forall n e s a, typedn n e s a -> wf_ident n e s ->
+  inline s = true -> agree e e s s = true ->
+  forall f x, (n <= f)%nat ->
+  exists v, py_of ropts0 e s a = Some v /\ rdec f e e ropts0 s (Some s) (wire a ++ x) = ROk (v, x).
+Proof.
+  intros n e s a Ht Hwf Hi Ha f x Hf. destruct (resolve_identity n e s a Ht Hwf) as (v & H1 & H2).
+  exists v. split; [exact H1|]. rewrite (rdec_resolve_zone_wire n e s a Ht e s f x Hf Hi Hi Ha), H2. reflexivity.
+Qed.
+
+From Coq Require Import String.
+Open Scope string_scope. Open Scope Z_scope.
+(* ------------------------------------------------------------------------------------------ *)
+(** * Part E: concrete witnesses (by computation): the inputs on which the code USED TO leave the specification
+      (the refutations about the old code are in proofs/ResolveOldProofs.v) now agree with it *)
+
+Ltac typed_tac :=
+  repeat first
+    [ exact I
+    | progress cbn [typedn ftype fst snd nthZ lookup bytes_eqb s2b]
+    | split
+    | apply Forall_nil | apply Forall_cons | apply Forall2_nil | apply Forall2_cons
+    | (eexists; split; [reflexivity|])
+    | progress (unfold in_int32, in_int64, is_byte, bytes_ok, key_ok, len; cbn [length])
+    | lia
+    | reflexivity ].
+
+Definition fld (n : str) (s : schema) : field := mkField n s None [].
+Definition fldd (n : str) (s : schema) (d : pyval) : field := mkField n s (Some d) [].
+
+
+(** F6: writer "bytes", reader ["string","bytes"] *)
+Definition f6_r := SUnion [SString; SBytes].
+Definition f6_a := ABytes [97; 98; 99].
+Lemma typed_F6 : typedn 1 [] SBytes f6_a. Proof. typed_tac. Qed.
+Lemma fixed_F6 :
+  rdec 3 [] [] ropts0 SBytes (Some f6_r) (wire f6_a) = ROk (PBytes [97; 98; 99], []) /\
+  resolve [] [] SBytes f6_r f6_a = ROk (PBytes [97; 98; 99]).
+Proof. split; vm_compute; reflexivity. Qed.
+
+(** F7: the writer defines fixed F at field x and refers to it at y; the reader the other way round *)
+Definition F4 := SFixed (s2b "F") [] 4.
+Definition f7_w := SRecord (s2b "R") [] [fld (s2b "x") F4; fld (s2b "y") (SRef (s2b "F"))].
+Definition f7_r := SRecord (s2b "R") [] [fld (s2b "y") F4; fld (s2b "x") (SRef (s2b "F"))].
+Definition f7_we : env := [(s2b "R", f7_w); (s2b "F", F4)].
+Definition f7_re : env := [(s2b "R", f7_r); (s2b "F", F4)].
+Definition f7_a := ARecord [AFixed [1; 2; 3; 4]; AFixed [5; 6; 7; 8]].
+Definition f7_out := PDict [(PStr (s2b "x"), PBytes [1; 2; 3; 4]); (PStr (s2b "y"), PBytes [5; 6; 7; 8])].
+Lemma typed_F7 : typedn 3 f7_we f7_w f7_a. Proof. typed_tac. Qed.
+Lemma fixed_F7 :
+  rdec 5 f7_we f7_re ropts0 f7_w (Some f7_r) (wire f7_a) = ROk (f7_out, []) /\
+  resolve f7_we f7_re f7_w f7_r f7_a = ROk f7_out.
+Proof. split; vm_compute; reflexivity. Qed.
+
+(** the writer refers to enum E by name where the reader has a union with the inline definition *)
+Definition EAB := SEnum (s2b "E") [] [s2b "A"; s2b "B"] None.
+Definition g1_w := SRecord (s2b "R") [] [fld (s2b "x") EAB; fld (s2b "y") (SRef (s2b "E"))].
+Definition g1_r := SRecord (s2b "R") [] [fld (s2b "y") (SUnion [SNull; EAB])].
+Definition g1_we : env := [(s2b "R", g1_w); (s2b "E", EAB)].
+Definition g1_re : env := [(s2b "R", g1_r); (s2b "E", EAB)].
+Definition g1_a := ARecord [AEnum 0; AEnum 1].
+Definition g1_out := PDict [(PStr (s2b "y"), PStr (s2b "B"))].
+Lemma typed_g1 : typedn 3 g1_we g1_w g1_a. Proof. typed_tac. Qed.
+Lemma fixed_ref_vs_union_inline :
+  rdec 5 g1_we g1_re ropts0 g1_w (Some g1_r) (wire g1_a) = ROk (g1_out, []) /\
+  resolve g1_we g1_re g1_w g1_r g1_a = ROk g1_out.
+Proof. split; vm_compute; reflexivity. Qed.
+
+(** the kind of a named type: record against enum, fixed against record of the same name *)
+Definition g2_w := SRecord (s2b "R") [] [fld (s2b "x") SInt].
+Definition g2_r := SEnum (s2b "R") [] [s2b "A"] None.
+Definition g2b_r := SRecord (s2b "F") [] [].
+Lemma typed_g2 : typedn 2 [(s2b "R", g2_w)] g2_w (ARecord [AInt 1]). Proof. typed_tac. Qed.
+Lemma typed_g2b : typedn 1 [(s2b "F", F4)] F4 (AFixed [1; 2; 3; 4]). Proof. typed_tac. Qed.
+Lemma fixed_kind :
+  rdec 5 [(s2b "R", g2_w)] [(s2b "R", g2_r)] ropts0 g2_w (Some g2_r) (wire (ARecord [AInt 1])) = RErrResolution /\
+  resolve [(s2b "R", g2_w)] [(s2b "R", g2_r)] g2_w g2_r (ARecord [AInt 1]) = RErrResolution /\
+  rdec 5 [(s2b "F", F4)] [(s2b "F", g2b_r)] ropts0 F4 (Some g2b_r) (wire (AFixed [1; 2; 3; 4])) = RErrResolution /\
+  resolve [(s2b "F", F4)] [(s2b "F", g2b_r)] F4 g2b_r (AFixed [1; 2; 3; 4]) = RErrResolution.
+Proof. repeat split; vm_compute; reflexivity. Qed.
+
+(** the JSON default of a reader-only bytes field *)
+Definition g3_w := SRecord (s2b "R") [] [fld (s2b "x") SInt].
+Definition g3_r := SRecord (s2b "R") [] [fld (s2b "x") SInt; fldd (s2b "b") SBytes (PStr [195; 191])].
+Definition g3_out := PDict [(PStr (s2b "x"), PInt 1); (PStr (s2b "b"), PBytes [255])].
+Lemma typed_g3 : typedn 2 [(s2b "R", g3_w)] g3_w (ARecord [AInt 1]). Proof. typed_tac. Qed.
+Lemma fixed_default_bytes :
+  rdec 5 [(s2b "R", g3_w)] [(s2b "R", g3_r)] ropts0 g3_w (Some g3_r) (wire (ARecord [AInt 1])) = ROk (g3_out, []) /\
+  resolve [(s2b "R", g3_w)] [(s2b "R", g3_r)] g3_w g3_r (ARecord [AInt 1]) = ROk g3_out.
+Proof. split; vm_compute; reflexivity. Qed.
+
+(** int -> float: 16777217 is not a binary32 value *)
+Lemma typed_g4 : typedn 1 [] SInt (AInt 16777217). Proof. typed_tac. Qed.
+Lemma fixed_int_to_float :
+  rdec 3 [] [] ropts0 SInt (Some SFloat) (wire (AInt 16777217)) = ROk (PFloat 4715268809856909312, []) /\
+  resolve [] [] SInt SFloat (AInt 16777217) = ROk (PFloat 4715268809856909312).
+Proof. split; vm_compute; reflexivity. Qed.
+
+(** reader == writer: a union of two records with the same unqualified name *)
+Definition g5_a := SRecord (s2b "a.R") [] [fld (s2b "x") SInt].
+Definition g5_b := SRecord (s2b "b.R") [] [fld (s2b "y") SString].
+Definition g5_u := SUnion [g5_a; g5_b].
+Definition g5_e : env := [(s2b "a.R", g5_a); (s2b "b.R", g5_b)].
+Definition g5_v := AUnion 1 (ARecord [AString [104; 105]]).
+Definition g5_out := PDict [(PStr (s2b "y"), PStr [104; 105])].
+Lemma typed_g5 : typedn 3 g5_e g5_u g5_v. Proof. typed_tac. Qed.
+Lemma fixed_identity_same_unqualified_name :
+  rdec 5 g5_e g5_e ropts0 g5_u (Some g5_u) (wire g5_v) = ROk (g5_out, []) /\
+  resolve g5_e g5_e g5_u g5_u g5_v = ROk g5_out /\
+  py_of ropts0 g5_e g5_u g5_v = Some g5_out.
+Proof. repeat split; vm_compute; reflexivity. Qed.
+
+(** two by-name references: fixed F of size 4 against F of size 5, empty array *)
+Definition F5 := SFixed (s2b "F") [] 5.
+Definition g6_w := SRecord (s2b "R") [] [fld (s2b "u") (SUnion [SNull; F4]); fld (s2b "xs") (SArray (SRef (s2b "F")))].
+Definition g6_r := SRecord (s2b "R") [] [fld (s2b "u") (SUnion [SNull; F5]); fld (s2b "xs") (SArray (SRef (s2b "F")))].
+Definition g6_a := ARecord [AUnion 0 ANull; AArray []].
+Lemma typed_g6 : typedn 3 [(s2b "R", g6_w); (s2b "F", F4)] g6_w g6_a. Proof. typed_tac. Qed.
+Lemma fixed_refs_by_name_only :
+  rdec 5 [(s2b "R", g6_w); (s2b "F", F4)] [(s2b "R", g6_r); (s2b "F", F5)] ropts0 g6_w (Some g6_r) (wire g6_a) = RErrResolution /\
+  resolve [(s2b "R", g6_w); (s2b "F", F4)] [(s2b "R", g6_r); (s2b "F", F5)] g6_w g6_r g6_a = RErrResolution.
+Proof. split; vm_compute; reflexivity. Qed.
+
+(** *** a non-trivial pair on which code and specification agree: fields reordered, one renamed with an alias and
+        promoted string -> bytes, one reader-only field with a default, int -> double, a writer-only array field
+        ahead of the retained ones (skipped: the stream stays aligned), trailing bytes left on the stream *)
+Definition ex_w := SRecord (s2b "R") []
+  [fld (s2b "a") (SArray SString); fld (s2b "b") SInt; fld (s2b "c") SString].
+Definition ex_r := SRecord (s2b "ns.R") []
+  [mkField (s2b "c2") SBytes None [s2b "c"]; fldd (s2b "d") SLong (PInt 9); fld (s2b "b") SDouble].
+Definition ex_a := ARecord [AArray [AString [120]; AString [121; 121]]; AInt 3; AString [104; 195; 169]].
+Definition ex_out := PDict [(PStr (s2b "b"), PFloat 4613937818241073152); (PStr (s2b "c2"), PBytes [104; 195; 169]);
+                            (PStr (s2b "d"), PInt 9)].
+Lemma example_agree :
+  typedn 3 [(s2b "R", ex_w)] ex_w ex_a /\
+  wire ex_a = [4; 2; 120; 4; 121; 121; 0; 6; 6; 104; 195; 169] /\
+  rdec 5 [(s2b "R", ex_w)] [(s2b "ns.R", ex_r)] ropts0 ex_w (Some ex_r) (wire ex_a ++ [7; 7])%list = ROk (ex_out, [7; 7]) /\
+  resolve [(s2b "R", ex_w)] [(s2b "ns.R", ex_r)] ex_w ex_r ex_a = ROk ex_out.
+Proof. split; [typed_tac|split; [|split]; vm_compute; reflexivity]. Qed.
+
+(** the example pair and the inline witnesses lie inside the agreement zone *)
+Lemma example_in_zone : inline ex_w = true /\ inline ex_r = true /\ agree [(s2b "R", ex_w)] [(s2b "ns.R", ex_r)] ex_w ex_r = true.
+Proof. repeat split; vm_compute; reflexivity. Qed.
+
+Lemma witnesses_in_zone :
+  agree [] [] SBytes f6_r = true /\
+  agree [(s2b "R", g2_w)] [(s2b "R", g2_r)] g2_w g2_r = true /\
+  agree [(s2b "F", F4)] [(s2b "F", g2b_r)] F4 g2b_r = true /\
+  agree [(s2b "R", g3_w)] [(s2b "R", g3_r)] g3_w g3_r = true /\
+  agree [] [] SInt SFloat = true /\
+  agree g5_e g5_e g5_u g5_u = true.
+Proof. repeat split; vm_compute; reflexivity. Qed.
